@@ -19,6 +19,6 @@ PROP = {
 
 TEXT = {
     "technique": "property-based testing: differential against host glibc strto*/ato* over a numeral grammar steered to prefixes and overflow boundaries; qsort checked by sorted-and-permutation, bsearch by found-iff-present with a heterogeneous comparator; ASan/UBSan; libFuzzer in thorough",
-    "level": "Generated-input exploration: millions of numeral texts (white space, sign, 0x/0 prefixes, digits around every base's alphabet, magnitudes within +-40 of each type limit and far beyond, arbitrary tails) for bases 0 and 2..36 are parsed by the six strto* shims, atoi and atol and compared with the host functions on value and end pointer; qsort over arrays 0..80 x element sizes 1..32 with duplicate-rich keys must leave an ordered permutation; bsearch over sorted arrays (including the empty, zero-size one) must return an equal element iff one exists, call compar(key, element) and never hand out a pointer outside the array. Nothing is established beyond the explored inputs.",
+    "level": "Generated-input exploration: millions of numeral texts (white space, sign, 0x/0 prefixes, digits around every base's alphabet, magnitudes within +-40 of each type limit and far beyond, arbitrary tails) for bases 0 and 2..36 are parsed by the six strto* shims, atoi and atol and compared with the host functions on value and end pointer; qsort over arrays 0..80 x element sizes 1..32 with duplicate-rich keys must leave an ordered permutation; bsearch over sorted arrays (including the empty, zero-size one) must return an equal element iff one exists, call compar(key, element) and never hand out a pointer outside the array.  Separate targets sort / search arrays of 250..262, 81..1100 and 65530..65545 elements and elements of 250..262 bytes (random, ascending, descending, all-equal keys). Nothing is established beyond the explored inputs.",
     "note": "Trusted: host glibc 2.36 strto*/atoi/atol as the ISO C reference; errno is not compared; atoi/atol are only given representable values (ISO leaves the rest undefined); clang ASan/UBSan.",
 }
